@@ -388,16 +388,17 @@ Proof. exact gen_mean_raster_eq_window_mean. Qed.
 (* the masks cv_masked obtains from its call of masks_dilatation, as generated (invalid = neither valid_pixels nor
    no_data_mask; scipy binary_dilation of the no_data pixels with a full window_size x window_size structure, one
    iteration; the two-column as_strided sum; arguments of the call: the two images in this order, self._window_size,
-   self._subpix) are the model's [mask_nan] of the left and of the right image, and the third mask exists exactly
+   self._subpix) are the model's [mask_nan] of the left and of the right image, each with the mask convention (attrs
+   valid_pixels / no_data_mask) of its own dataset, and the third mask exists exactly
    when subpix != 1 and is the model's [mask_shift] *)
-Theorem C02_gen_cv_masked_masks_eq_model : forall ny nx w s vp nd,
+Theorem C02_gen_cv_masked_masks_eq_model : forall ny nx w s,
   0 <= ny -> 1 <= nx -> 0 < w -> Z.odd w = true ->
-  forall (IL IR : img) (mL mR : option img),
-  let res := GF.cv_masked_masks (ds_of ny nx vp nd IL mL) (ds_of ny nx vp nd IR mR) w s in
+  forall (vp nd vpr ndr : Z) (IL IR : img) (mL mR : option img),
+  let res := GF.cv_masked_masks (ds_of ny nx vp nd IL mL) (ds_of ny nx vpr ndr IR mR) w s in
   is_arr (fst res) ny nx (mask_nan ny nx w vp nd mL)
-  /\ is_arr (fst (snd res)) ny nx (mask_nan ny nx w vp nd mR)
+  /\ is_arr (fst (snd res)) ny nx (mask_nan ny nx w vpr ndr mR)
   /\ match snd (snd res) with
-     | Some sh => s <> 1 /\ is_arr sh ny (nx - 1) (mask_shift (mask_nan ny nx w vp nd mR))
+     | Some sh => s <> 1 /\ is_arr sh ny (nx - 1) (mask_shift (mask_nan ny nx w vpr ndr mR))
      | None => s = 1
      end.
 Proof. exact gen_cv_masked_masks_eq. Qed.
